@@ -828,7 +828,8 @@ func c25Ops(m *model, thorough bool) []string {
 	add := func(format string, a ...any) { ops = append(ops, fmt.Sprintf(format, a...)) }
 	for ai := 1; ai <= 2; ai++ {
 		a := m.A[ai]
-		full := ai == 1 || thorough
+		// account 2 keeps the reduced alphabet in both tiers (a symmetric alphabet squares the space)
+		full := ai == 1
 		// stored values at the target paths
 		for p := 0; p < 2; p++ {
 			if p == 1 && !full {
@@ -1065,7 +1066,7 @@ func init() {
 		Assumptions: []string{
 			"the host (rt) hands out account IDs from a per-account counter kept in the ledger, discarded with a failed transaction",
 			"read-only operations are evaluated by the observer after every transition instead of being transitions themselves",
-			"quick tier: account 1 issues at most 2 controllers from 5 (path, type) choices, account 2 has one storage path, one public path and one borrow type; the thorough tier uses the full alphabet on both accounts",
+			"account 2 has a reduced alphabet (one storage path, one public path, one borrow type); quick tier: account 1 issues at most 2 controllers from 5 (path, type) choices; thorough tier: at most 3 from all 9, plus retarget to the same path, a second inbox name and more claim/unpublish types",
 		},
 		Run:    runC25,
 		Replay: replayC25,
